@@ -139,6 +139,7 @@ func main() {
 		for _, m := range []string{"wrkchain", "beacon", "enterprise"} {
 			writeKeeper(*repo, m, filepath.Join(*genDir, modules[m].typesMod+".v"), filepath.Join(*genDir, modules[m].keeperMod+".v"))
 		}
+		writeKeys(*repo, filepath.Join(*genDir, "GeneratedKeys.v"))
 	}
 	if *fnsOut != "" {
 		writeFns(*repo, *fnsOut)
